@@ -1,19 +1,27 @@
 """C52 — local diagnostics report every executed task faithfully."""
 PROPERTY = "C52"
 META = {
-    "category": "other",
-    "technique": "bounded stand-in: run-time postconditions on the real Profiler and Cache callbacks over all small graphs, sync and threaded schedulers, failing tasks, nested / registered profilers, cache reuse under eviction (cachey replaced by a stated stand-in)",
-    "text": "BOUNDED, not proved: for every task/data graph with <= 3 nodes, every request, with and without a failing task, on the sync and threaded schedulers, with one profiler, two nested profilers and a registered + context profiler: each profiler records exactly one entry per task whose posttask fired, start <= end. Cache: 3 graphs x 4 capacities x 3 rounds reusing the cache x 2 schedulers give the same values with and without the callback.",
-    "note": "No deductive proof (level other): Profiler stores heterogeneous tuples that grow from 3 to 5 fields in a dict and filters them by length (not brought under contract); the callback protocol it relies on is proved in C05. `cachey` is absent from the sandbox: a 40-line stand-in (vf/stubs/cachey.py) is used, so the Cache part checks dask/cache.py against that model only.",
+    "category": "proof",
+    "technique": "contract-based deductive verification of Profiler._pretask/_posttask/_finish (records as a union of the 3-field and 5-field tuple shapes, instance invariant, monotone ghost clock) and of a ghost client driving them in scheduler order, z3; bounded stand-in: run-time postconditions on the real Profiler and Cache callbacks over all small graphs, sync and threaded schedulers, failing tasks, nested / registered profilers, cache reuse under eviction (cachey replaced by a stated stand-in)",
+    "text": "PROVED for every sequence the callback protocol allows (induction over the calls: each method keeps the instance invariant): _pretask opens exactly one record for its key and leaves the others alone, _posttask completes that record with start <= end, _finish appends exactly one entry per completed record (distinct keys, earlier entries kept, TaskData never gets a short record) and drops the records still in flight; client theorem: pretask a, pretask b, posttask b, pretask c, posttask a, finish gives exactly the entries a and b with start <= end. That each executed task gets one pretask before one posttask call is C05. BOUNDED, not proved: for every task/data graph with <= 3 nodes, every request, with and without a failing task, on the sync and threaded schedulers, with one profiler, two nested profilers and a registered + context profiler: each profiler records exactly one entry per task whose posttask fired, start <= end. Cache: 3 graphs x 4 capacities x 3 rounds reusing the cache x 2 schedulers give the same values with and without the callback.",
+    "note": "Trusted: VC generator, z3. ASSUMED: default_timer never goes backwards; starmap(TaskData, xs) builds one five-field namedtuple per record (modelled as the tuple). __init__/__enter__/clear and the Callback plumbing are not under contract (bounded natively: nested and registered profilers). The Cache clause is NOT proved: bounded natively only. `cachey` is absent from the sandbox: a 40-line stand-in (vf/stubs/cachey.py) is used, so the Cache part checks dask/cache.py against that model only.",
     "design_ref": "DESIGN.md §5.13",
 }
-MODULES = []
-LEVEL = "other"
-EXPLANATION = "bounded run-time contract checks; no obligations generated (see note)"
-TRUSTED = ["stand-in for cachey (vf/stubs/cachey.py)", "timeit.default_timer monotone"]
+MODULES = ["contracts.profiler"]
+LEVEL = "proof"
+EXPLANATION = "Profiler record keeping proved (two-state contracts + instance invariant + client theorem); Cache clause and scheduler integration by bounded run-time contract checks"
+TRUSTED = ["VC generator /verif/vf", "z3", "stand-in for cachey (vf/stubs/cachey.py)", "timeit.default_timer monotone (assumed)", "itertools.starmap model"]
 ASSUMPTIONS = ["bounded graphs"]
 
 
 def native(tier, seed):
     from vf import diag_native
     return [diag_native.profiler_sweep(tier, seed), diag_native.cache_sweep(tier, seed)]
+
+
+NATIVE_COVERS = {q: ["Profiler"] for q in ("Profiler._pretask", "Profiler._posttask", "Profiler._finish", "client_two_tasks_one_fails_later")}
+
+# thorough tier: deliberate edits that must turn an obligation red (applied to a scratch copy, never to /repo)
+MUTATIONS = [('contracts.profiler', 'Profiler._finish', 'dask/diagnostics/profile.py', '        results = {k: v for k, v in self._results.items() if len(v) == 5}', '        results = {k: v for k, v in self._results.items() if len(v) >= 3}'),
+             ('contracts.profiler', 'Profiler._finish', 'dask/diagnostics/profile.py', '        self.results += list(starmap(TaskData, results.values()))', '        self.results = list(starmap(TaskData, results.values()))'),
+             ('contracts.profiler', 'Profiler._posttask', 'dask/diagnostics/profile.py', '        end = default_timer()\n        self._results[key] += (end, id)', '        end = default_timer()\n        self._results[key] += (end - 1, id)')]
